@@ -57,8 +57,26 @@ class Norm(object):
         return json.dumps(self.c, sort_keys=True)
 
 
+class TooLong(Exception):
+    pass
+
+
+def _alarm(signum, frame):
+    raise TooLong("graph analysis did not finish within 10 s")
+
+
 def analyse(g):
-    """every algorithm of DiGraph on g, for every head / leaf"""
+    """every algorithm of DiGraph on g, for every head / leaf (graphs have at most 6 nodes: 10 s means non-termination)"""
+    import signal
+    signal.signal(signal.SIGALRM, _alarm)
+    signal.alarm(10)
+    try:
+        return _analyse(g)
+    finally:
+        signal.alarm(0)
+
+
+def _analyse(g):
     V = sorted(g.nodes())
     a = {"nodes": V, "edges": [list(e) for e in g.edges()], "heads": list(g.heads()), "leaves": list(g.leaves()),
          "hasloop": g.has_loop(),
